@@ -9,9 +9,11 @@
                         version = the static array net.HDPrivateKeyID[:]
      NewKeyFromString   version/parentFP/chainCode/key are four ranges of the ONE decoded buffer
      NewExtendedKey     stores the caller's four slices (the property quantifies over fresh ones)
-     Child              key fresh; chainCode = ilr[32:] of the fresh HMAC buffer; parentFP = Hash160(..)[:4] of a
-                        fresh 20-byte buffer; version = the parent's slice (shared); may memoise the
-                        parent's pubKey (also when the derivation then fails)
+     Child              key fresh; chainCode = a fresh COPY of ilr[32:] (since /repo 593a81b: a buffer of its own, so
+                        that Il = ilr[:32] is not left in front of it in the same allocation; child_old is the
+                        earlier layout chainCode = ilr[32:]); the 64-byte HMAC output itself becomes garbage;
+                        parentFP = Hash160(..)[:4] of a fresh 20-byte buffer; version = the parent's slice
+                        (shared); may memoise the parent's pubKey (also when the derivation then fails)
      Neuter             public key: returns the same key (same handle); private key: fresh copies of the
                         public key bytes, chain code and fingerprint, static version from chaincfg's map
                         (neuter_old: the pre-fix code, sharing the three slices)
@@ -286,6 +288,37 @@ Definition new_ext (s : state) (ver key cc fp : list N) (depth num : N) (priv : 
        x_ver := Some (whole a ver); x_depth := depth mod 256; x_num := num mod 4294967296; x_priv := priv |}.
 
 Definition child (s : state) (k : nat) (i : N) : state * outcome :=
+  match nth_error (st_keys s) k with
+  | None => (s, OErr 99)
+  | Some xk =>
+      if x_depth xk =? max_depth then (s, OErr 1)
+      else if negb (x_priv xk) && is_hard i then (s, OErr 2)
+      else
+        let h := st_heap s in
+        (* non-hardened: copy(data, k.pubKeyBytes()) memoises before the HMAC *)
+        let '(h1, xk1, keyish) :=
+           if is_hard i then (h, xk, x_key xk) else pub_key_bytes h xk in
+        match child_core (x_priv xk1) (rdo h1 (x_key xk1)) (rdo h1 keyish) (rdo h1 (x_cc xk1)) i with
+        | Ok (ilr, ck) =>
+            (* parentFP := Hash160(k.pubKeyBytes())[:4]   (memoises on the hardened path) *)
+            let '(h2, xk2, pbs) := pub_key_bytes h1 xk1 in
+            let h160 := hash160 (rdo h2 pbs) in
+            let a := length h2 in
+            (* childChainCode := append([]byte(nil), ilr[len(ilr)/2:]...) *)
+            let cc := skipn (cc_off ilr) ilr in
+            push (h2 ++ [ilr; ck; h160; cc]) (set_nth (st_keys s) k xk2)
+              {| x_key := Some (whole (a + 1) ck); x_pub := None;
+                 x_cc := Some (whole (a + 3) cc);
+                 x_fp := Some (sub (a + 2) 0 fp_len); x_ver := x_ver xk2;
+                 x_depth := next_depth (x_depth xk2); x_num := i; x_priv := x_priv xk2 |}
+        | Err e => ({| st_heap := h1; st_keys := set_nth (st_keys s) k xk1 |}, OErr e)
+        | Panic p => ({| st_heap := h1; st_keys := set_nth (st_keys s) k xk1 |}, OErr (100 + p))
+        end
+  end.
+
+(* Child as it was before commit 593a81b (chainCode := ilr[len(ilr)/2:], a slice of the HMAC output): kept verbatim to
+   document that Il survives Zero in that layout (HDAlloc.zero_allocation_refuted_old) *)
+Definition child_old (s : state) (k : nat) (i : N) : state * outcome :=
   match nth_error (st_keys s) k with
   | None => (s, OErr 99)
   | Some xk =>
